@@ -79,7 +79,9 @@ def liouville_representation(U: ndarray, basis: _b.Basis) -> ndarray:
     U = np.asanyarray(U)
     conjugated_basis = np.einsum('...ba,ibc,...cd->...iad', U.conj(), basis, U,
                                  optimize=['einsum_path', (1, 2), (0, 1)])
-    if basis.btype == 'GGM' and basis.d > 12:
+    if (basis.btype == 'GGM' and basis.d > 12 and basis.shape[0] == basis.d**2
+            and basis == _b.Basis.ggm(basis.d)):
+        # Do not trust the label alone; indexing or reordering a basis retains it
         # Can do closed form expansion and overhead compensated
         return _b.ggm_expand(conjugated_basis, hermitian=basis.isherm)
     else:
